@@ -330,6 +330,9 @@ func DecryptASN1(priv *EncryptPrivateKey, uid, ciphertext []byte) ([]byte, error
 		return nil, errors.New("sm9: invalid ciphertext asn.1 data")
 	}
 	// We just make assumption block cipher is SM4 and padding scheme is pkcs7
+	if encType < 0 || encType > 255 {
+		return nil, ErrDecryption
+	}
 	opts := shangMiEncrypterOpts(encryptType(encType))
 	if opts == nil {
 		return nil, ErrDecryption
